@@ -7,6 +7,9 @@ payload = {"keys": dir with PEM files written by the check, "cases": [case, ...]
        | {"op": "chunks", "cmds": [C..]}                        -> [hex..]  (get_cmd_blocks_to_export)
        | {"op": "kdf", "pck": hex, "ts": int, "bits": int, "rights": int, "n": int} -> hex
        | {"op": "container", ...}                               -> {"files": [hex..], "cert": hex, "cert_expected": int, ...}
+       | {"op": "config", "cfg": {...}, "cert_cfg": {...}, "files": {name: hex}}   -> hex of the file written by
+             spsdk.apps.nxpimage.sb31_export (the body of `nxpimage sb31 export`); "@k/<name>" / "@f/<name>" in string values
+             stand for key files / data files, the runner writes everything under payload["scratch"]
   C = [tag, field, ...] in the order of the constructor arguments; data fields as hex strings:
       1 erase [addr,len,mem]   2 load [addr,mem,data]   3 execute [addr]   4 call [addr]   5 programFuses [addr,data]
       6 programIFR [addr,data] 7 loadCMAC [addr,mem,data]   8 copy [addr,len,dest,memfrom,memto]
@@ -144,8 +147,39 @@ def handler(payload):
                              sb.sb_header.cert_block_offset]
         return out
 
+    def config_case(c, k):
+        import json as _json
+        from spsdk.apps.nxpimage import sb31_export
+        d = os.path.join(payload["scratch"], f"cfg{k}")
+        os.makedirs(d, exist_ok=True)
+        for name, hx in c["files"].items():
+            with open(os.path.join(d, name), "wb") as f:
+                f.write(bytes.fromhex(hx))
+
+        def subst(v):
+            if isinstance(v, str) and v.startswith("@k/"):
+                return os.path.join(keys, v[3:])
+            if isinstance(v, str) and v.startswith("@f/"):
+                return os.path.join(d, v[3:])
+            if isinstance(v, dict):
+                return {a: subst(b) for a, b in v.items()}
+            if isinstance(v, list):
+                return [subst(b) for b in v]
+            return v
+
+        with open(os.path.join(d, "cb.json"), "w") as f:
+            _json.dump(subst(c["cert_cfg"]), f)
+        cfg = subst(c["cfg"])
+        cfg["certBlock"] = os.path.join(d, "cb.json")
+        cfg["containerOutputFile"] = os.path.join(d, "out.sb3")
+        with open(os.path.join(d, "cfg.json"), "w") as f:
+            _json.dump(cfg, f)
+        sb31_export(os.path.join(d, "cfg.json"))
+        with open(cfg["containerOutputFile"], "rb") as f:
+            return f.read()
+
     out = []
-    for c in payload["cases"]:
+    for k, c in enumerate(payload["cases"]):
         op = c["op"]
         if op == "export_cmd":
             ok, r = g(lambda: mk(c["cmd"]).export())
@@ -173,6 +207,9 @@ def handler(payload):
             out.append(bytes(r).hex() if ok else r)
         elif op == "container":
             out.append(container(c))
+        elif op == "config":
+            ok, r = g(lambda: config_case(c, k))
+            out.append(r.hex() if ok else r)
         else:
             raise ValueError(op)
     return {"results": out}
